@@ -146,11 +146,52 @@ def _o(name):
     return OPC[name]
 
 
-def _run(prog, cache, flags=None):
+class GlobalFlags:
+    """`functions.flags[name] = value` — the way docs.md configures the slack
+    for a whole process — for the duration of the block"""
+
+    def __init__(self, vals) -> None:
+        self.vals = dict(vals or {})
+
+    def __enter__(self):
+        fl = env.mods()[0].flags
+        self.saved = {k: fl[k] for k in self.vals if k in fl}
+        self.added = [k for k in self.vals if k not in fl]
+        fl.update(self.vals)
+        return self
+
+    def __exit__(self, *a):
+        fl = env.mods()[0].flags
+        fl.update(self.saved)
+        for k in self.added:
+            fl.pop(k, None)
+        return False
+
+
+def prime(flags, cache):
+    """an earlier run of the same process under ANOTHER global configuration
+    (a later run must not remember it)"""
+    functions = env.mods()[0]
+    other = {k: v + 41 for k, v in (flags or {}).items()}
+    with GlobalFlags(other):
+        try:
+            functions.run_script(b'\x01', dict(cache))
+            functions.run_auth_scripts([b'\x01'], dict(cache))
+        except BaseException:
+            pass
+
+
+def _run(prog, cache, flags=None, cfg='arg'):
     functions = env.mods()[0]
     try:
-        _, stack, _ = functions.run_script(prog, cache,
-                                           additional_flags=flags or {})
+        if cfg == 'global':
+            prime(flags, cache)
+            with GlobalFlags(flags):
+                # no additional_flags argument at all
+                _, stack, _ = functions.run_script(prog, cache)
+        else:
+            _, stack, _ = functions.run_script(prog, cache,
+                                               additional_flags=flags or {})
         return list(stack.deque), None
     except BaseException as e:
         return None, e
@@ -158,13 +199,14 @@ def _run(prog, cache, flags=None):
 
 def _judge_pair(ctx, case, plain_prog, verify_prog, cache, flags, want, key):
     """plain form leaves exactly want; _VERIFY raises iff not want."""
-    st, exc = _run(plain_prog, cache, flags)
+    cfg = case.get('cfg', 'arg')
+    st, exc = _run(plain_prog, cache, flags, cfg)
     if exc is not None or st != [b'\xff' if want else b'\x00']:
         ctx.violation(key + ('-accepts' if not want else '-rejects'),
                       f'{case["kind"]} plain form', case,
                       'ff' if want else '00',
                       repr(exc)[:120] if exc else [x.hex() for x in st])
-    st, exc = _run(verify_prog, cache, flags)
+    st, exc = _run(verify_prog, cache, flags, cfg)
     if want:
         if exc is not None or st != []:
             ctx.violation(key + '-verify-rejects', f'{case["kind"]} _VERIFY '
@@ -207,7 +249,11 @@ def judge(case, ctx):
         ctx.tab('epoch_outcome', want)
     else:
         t, now = case['t'], case['now']
-        in_slack = t - now < 60
+        # locks under the default slack, or under one configured globally
+        lthr = case.get('lock_thr', 60)
+        lflags = {'ts_threshold': lthr} if 'lock_thr' in case else None
+        cfg = 'global' if lflags else 'arg'
+        in_slack = lthr <= 0 or t - now < lthr
         # verify None: the argument is left out (the lock as a caller who
         # follows the README gets it: result left on the stack)
         va = () if case['verify'] is None else (case['verify'],)
@@ -224,7 +270,7 @@ def judge(case, ctx):
                 case['begin'], case['end'], *va)
             want = case['begin'] <= t < case['end'] and in_slack
             nt = True
-        st, exc = _run(bytes(lock), {'timestamp': t})
+        st, exc = _run(bytes(lock), {'timestamp': t}, lflags, cfg)
         if case['verify']:
             got = exc is None and st == []
             malformed = exc is None and st != []
@@ -242,13 +288,16 @@ def judge(case, ctx):
                           repr(exc)[:120] if exc else [x.hex() for x in st])
         elif got != want:
             key = f'{k}-lock-' + ('accepts' if got else 'rejects')
-            if k == 'before' and got and t >= case['ts'] and t - now >= 60:
+            if k == 'before' and got and t >= case['ts'] and not in_slack:
                 key = 'before-lock-accepts-beyond-slack'
             ctx.violation(key, f'{k} lock verdict differs from its window',
                           case, want, got)
         # cross-check through the authorization entry point
         if not case['verify']:
-            auth = functions.run_auth_scripts([lock], {'timestamp': t})
+            if lflags:
+                prime(lflags, {'timestamp': t})
+            with GlobalFlags(lflags):
+                auth = functions.run_auth_scripts([lock], {'timestamp': t})
             if auth != got:
                 ctx.violation(f'{k}-lock-auth-differs', 'run_auth_scripts '
                               'disagrees with run_script on the same lock',
@@ -266,6 +315,11 @@ def run_shard(spec, ctx):
         if j % of != i:
             continue
         judge(case, ctx)
+        # the same case with the slack configured through functions.flags
+        if case['kind'] in ('ts', 'epoch'):
+            judge(dict(case, cfg='global'), ctx)
+        else:
+            judge(dict(case, lock_thr=(10, 0, 300, 61)[n % 4]), ctx)
         if n % 997 == 0:
             ctx.sample(case)
         n += 1
@@ -273,6 +327,7 @@ def run_shard(spec, ctx):
     rng = ctx.rng('random')
     for case in gen_random(rng, NRANDOM[ctx.tier] // of):
         judge(case, ctx)
+        judge(dict(case, cfg='global'), ctx)
     ctx.count('clock_reads', env.Clock.calls)
 
 
